@@ -170,6 +170,25 @@ func init() {
 			emit("(* UNTRANSLATABLE isTempError *)\nDefinition is_temp_error_unwraps : bool := false.\n")
 		}
 
+		// length guards: the classifiers index into err.Error(); each must look at len(...) first
+		for _, g := range [][2]string{{"senderr_guard_temp", "isTempError"}, {"senderr_guard_code", "errorCode"}, {"senderr_guard_esc", "enhancedStatusCode"}} {
+			has := false
+			if fn, ok := p.funcs[g[1]]; ok && fn.Body != nil {
+				ast.Inspect(fn.Body, func(x ast.Node) bool {
+					if ce, ok := x.(*ast.CallExpr); ok {
+						if id, ok := ce.Fun.(*ast.Ident); ok && id.Name == "len" {
+							has = true
+						}
+					}
+					return true
+				})
+				emit("(* %s: %s checks the length of the error text before indexing into it *)\nDefinition %s : bool := %v.\n", p.pos(fn), g[1], g[0], has)
+			} else {
+				untranslatable = append(untranslatable, g[0])
+				emit("(* UNTRANSLATABLE %s *)\nDefinition %s : bool := false.\n", g[1], g[0])
+			}
+		}
+
 		// the regular expression of enhancedStatusCode
 		re, reOK := "", false
 		if fn, ok := p.funcs["enhancedStatusCode"]; ok && fn.Body != nil {
